@@ -35,6 +35,7 @@ type Run struct {
 	evals       int64
 	distinct    map[[16]byte]struct{}
 	samples     []any
+	sigSamples  []string
 	maxSamples  int
 	counters    map[string]int64
 	sets        map[string]map[string]struct{}
@@ -128,6 +129,9 @@ func (r *Run) Distinct(sig string) {
 	var k [16]byte
 	copy(k[:], h[:16])
 	r.mu.Lock()
+	if _, seen := r.distinct[k]; !seen && len(r.sigSamples) < 5 {
+		r.sigSamples = append(r.sigSamples, sig) // first distinct case signatures, written out if the monitor gives no richer samples
+	}
 	r.distinct[k] = struct{}{}
 	r.mu.Unlock()
 }
@@ -304,6 +308,11 @@ func (r *Run) Finish() {
 	if len(r.distinct) < 2 || r.evals < 1 {
 		r.inconcl = append(r.inconcl, "too few distinct non-trivial cases observed")
 		fmt.Printf("INCONCLUSIVE property=%s reason=too few distinct non-trivial cases observed (%d)\n", r.ID, len(r.distinct))
+	}
+	if len(r.samples) == 0 {
+		for _, sg := range r.sigSamples {
+			r.samples = append(r.samples, map[string]any{"case_signature": sg})
+		}
 	}
 	if r.samples == nil {
 		r.samples = []any{}
